@@ -61,6 +61,10 @@ func main() {
 	case "C01", "C07", "C13":
 		genJwsRead(r, *prop)
 		genCoseRead(r, *prop)
+		if *prop == "C07" {
+			// the same clauses on objects with a history (read, then signing again)
+			genUsedObjectReads(r)
+		}
 		if *prop == "C13" {
 			// the same attributes seen from the signing side: through the returned bytes and on the object that signed
 			genSign(r, *prop)
